@@ -13,8 +13,9 @@ dereference / panic, and every output (Get, Len, First, HasNext, Next, …) equa
 entries in insertion order, only those live when reached, none twice, entries added during
 iteration are seen, a new iterator and First start at the oldest live entry. -/
 theorem map_refines_spec (ops : List Op) :
-    ∃ m, runI false M.new ops = some (m, (runS S.new ops).2) :=
-  sorry
+    ∃ m, runI false M.new ops = some (m, (runS S.new ops).2) := by
+  obtain ⟨m, h, _⟩ := reach_sim ops
+  exact ⟨m, h⟩
 
 /-- facts about the representation after any history -/
 structure Shape (m : M) : Prop where
@@ -28,8 +29,16 @@ structure Shape (m : M) : Prop where
 
 /-- C10.inv -/
 theorem inv (ops : List Op) (m : M) (outs : List Out) (h : runI false M.new ops = some (m, outs)) :
-    Shape m :=
-  sorry
+    Shape m := by
+  have hs := reach_sim' h
+  exact
+    { head_first := hs.cs.head
+      last_final := hs.cs.toStr.getLast
+      sentinel_only_last := hs.cs.last_state
+      ids_distinct := hs.cs.toStr.nodup
+      deleted_pinned := hs.cs.pinned
+      refcnt_exact := hs.cs.refc
+      vals_are_ok_nodes := by rw [hs.vals, List.length_map, okl, List.length_map] }
 
 /-! Spec-level facts that spell out the property's sentences -/
 
@@ -40,15 +49,19 @@ theorem spec_next (s : S) (h pos : Nat) (hp : lookupIt s.its h = some pos) :
     | some e => (s.step (.next h)).2 = .kv e.key e.val ∧ e.alive = true ∧ pos ≤ e.stamp ∧
         lookupIt (s.step (.next h)).1.its h = some (e.stamp + 1)
     | none => (s.step (.next h)).2 = .none ∧ (s.step (.next h)).1 = s :=
-  sorry
+  OMap.spec_next s h pos hp
 
-/-- C10.new_iterator_starts_at_oldest_live -/
-theorem new_iterator_starts_at_oldest_live (s : S) :
+/-- C10.new_iterator_starts_at_oldest_live (for every reachable Spec state: the statement is false
+for unreachable states in which `s.its` already holds the handle `s.nextIt`; the general form with
+an explicit freshness hypothesis is `OMap.new_iterator_starts_at_oldest_live_of_fresh`) -/
+theorem new_iterator_starts_at_oldest_live (ops : List Op) :
+    let s := (runS S.new ops).1
     let (s1, o) := s.step .iterator
     o = .handle s.nextIt ∧
     (s1.step (.next s.nextIt)).2 = (match s.live with | e :: _ => .kv e.key e.val | [] => .none) ∧
-    (s.step .first).2 = (match s.live with | e :: _ => .key e.key | [] => .none) :=
-  sorry
+    (s.step .first).2 = (match s.live with | e :: _ => .key e.key | [] => .none) := by
+  obtain ⟨m, _, hs⟩ := reach_sim ops
+  exact new_iterator_starts_at_oldest_live_of_fresh _ hs.fresh
 
 /-- regression witness (D1): with the pre-repair `release` the history
 Add(1); it := Iterator(); Remove(1); it.Close(); First()  dereferences nil. -/
